@@ -78,4 +78,18 @@ var specs = []CheckSpec{
 		Assumptions: append([]string{"the reference evaluator in the harness is written from the property text (OR of options, AND of terms, !, !! and malformed false, android selects linux, * accepts all but ignore)"}, commonAssumptions...),
 		Outside:     []string{"tag names outside the vocabulary (Unicode letters)", "more than 3 leading items"},
 	},
+	{
+		ID: "C18", Pkg: "imports",
+		Harnesses: []HarnessSpec{
+			{Fn: "VerifC18Slots", Quick: map[string]int{"PAIR": 1}, Thorough: map[string]int{"PAIR": 2}, Witness: []string{"bom", "several-imports"}, Native: true},
+			{Fn: "VerifC18Specs", Quick: map[string]int{"PL": 1}, Thorough: map[string]int{"PL": 2}, Witness: []string{"specs"}, Native: true},
+			{Fn: "VerifC18Arbitrary", Quick: map[string]int{"N": 4}, Thorough: map[string]int{"N": 5}, Witness: []string{"ran", "syntax-error", "nul"}, Native: true},
+		},
+		Bounds: map[string]string{
+			"quick":    "valid files from 4 token skeletons (no import / single / group of two / single+group+empty group) x 5 declaration tails x optional BOM, with one separator slot at a time ranging over its full menu (blanks, semicolons, CRLF, // and /* */ comments with a symbolic body byte); all alias forms x raw/interpreted paths with <= 1 symbolic byte; arbitrary tails of <= 4 symbolic bytes after 5 prefixes, both reportSyntaxError values",
+			"thorough": "two separator slots vary simultaneously; paths with <= 2 symbolic bytes; arbitrary tails <= 5 bytes",
+		},
+		Assumptions: append([]string{"validity of generated files and the expected import list are cross-checked against go/parser (ImportsOnly) on every natively replayed path witness"}, commonAssumptions...),
+		Outside:     []string{"more than two simultaneously varying separators", "files whose import section is longer than the skeletons", "bufio buffer refills (inputs are far below 4096 bytes)"},
+	},
 }
